@@ -303,3 +303,27 @@ def empty_list(ty):
 def empty_dict(ty):
     return VDict(ty, z3.K(ty.key.sort, z3.BoolVal(False)),
                  z3.Const(fresh_name("nil_val"), ty.vsort))
+
+
+class TCount(Ty):
+    """a list of which only the length is tracked (e.g. lists of messages or of statements
+    that are only counted): sort Int"""
+    sort = z3.IntSort()
+    mutable = True
+
+    def wrap(self, term):
+        return VCount(term)
+
+
+class VCount(V):
+    ty = None
+
+    def __init__(self, t):
+        self.t = z3.IntVal(t) if isinstance(t, int) else t
+        self.ty = COUNT
+
+    def __repr__(self):
+        return "VCount(%s)" % self.t
+
+
+COUNT = TCount()
